@@ -68,6 +68,8 @@ def _(c):
     c.ensures('result.generation == len(self.db[obj_id]) - 1 and result.id == obj_id and result.type == type_name and '
               'result.create_time == time and result.alive and result.connection is self and result.parent is parent', 'new_object_as_given')
     c.ensures('fresh(result)', 'result_is_new')
+    c.requires('probe() is None or (allocated(probe()) and foreign(probe(), self))', 'probe_list_is_foreign')
+    c.ensures('probe() is None or foreign(probe(), self)', 'foreign_lists_stay_foreign')
     c.ensures('all((i in dictview(self.db)) == (i in old(dictview(self.db)) or i == obj_id) for i in ints())', 'same_ids_plus_this_one')
     c.ensures('all(i == obj_id or dictview(self.db)[i] == old(dictview(self.db))[i] for i in dictview(self.db))', 'other_ids_untouched')
     c.ensures('(not had) or all(self.db[obj_id][k] is old(dictview(self.db))[obj_id][k] for k in range(0, len(self.db[obj_id]) - 1))', 'earlier_incarnations_kept')
